@@ -262,6 +262,17 @@ def walk(node):
         yield from walk(c)
 
 
+def own_fills(use):
+    """the fill-slot elements of a use-macro element: those inside it that are not inside a nested use-macro element"""
+    for c in use.children:
+        if isinstance(c, str):
+            continue
+        if "fill-slot" in c.metal:
+            yield c
+        if "use-macro" not in c.metal:
+            yield from own_fills(c)
+
+
 def macros_of(root):
     """METAL: the macros a template defines, by name"""
     return {el.metal["define-macro"]: el for el in walk(root) if "define-macro" in el.metal}
@@ -276,7 +287,7 @@ def render(node, ctx, slots=None, macros=None):
     el = node
     if "use-macro" in el.metal:
         name = el.metal["use-macro"].split("/")[-1]
-        fills = {c.metal["fill-slot"]: c for c in walk(el) if c is not el and "fill-slot" in c.metal}
+        fills = {c.metal["fill-slot"]: c for c in own_fills(el)}
         return render(macros[name], ctx, fills, macros)
     if "define-slot" in el.metal and slots and el.metal["define-slot"] in slots:
         return render(slots[el.metal["define-slot"]], ctx, None, macros)
